@@ -21,7 +21,8 @@ namespace Wm.Decor
 
 inductive Val
   | raw (s : String)     -- any string that is not a canonical stamp
-  | time (sec : Int)     -- RFC 3339 rendering (UTC, whole seconds) of that unix second
+  | time (sec : Int)     -- RFC 3339 rendering (UTC, whole seconds, suffix `Z`) of that unix second
+  | timeIn (sec zone : Int) -- RFC 3339 rendering of that unix second in a zone `zone` seconds east of UTC (suffix `+hh:mm`), zone ≠ 0
   | dur (ns : Int)       -- `time.Duration(ns).String()`
   deriving DecidableEq, Repr, Inhabited
 
@@ -47,21 +48,38 @@ def untilKey : String := "_watermill_delayed_until"
 
 /-- `delay.Delay{time, duration}` -/
 structure Delay where
-  time : Int     -- unix ns
+  time : Int     -- unix ns (the instant)
   dur  : Int     -- ns
+  zone : Int     -- offset (seconds east of UTC) of the location the `time.Time` carries; `time.Now().UTC()` has 0
   deriving DecidableEq, Repr, Inhabited
 
-/-- `delay.For(d)` evaluated when the clock shows `now` -/
-def Delay.for (now d : Int) : Delay := ⟨now + d, d⟩
-/-- `delay.Until(t)` evaluated when the clock shows `now` (no saturation: |t - now| < 2^63 ns) -/
-def Delay.until (now t : Int) : Delay := ⟨t, t - now⟩
+/-- `delay.For(d)` evaluated when the clock shows `now` (built with `time.Now().UTC()`: zone 0) -/
+def Delay.for (now d : Int) : Delay := ⟨now + d, d, 0⟩
+/-- `delay.Until(t)` evaluated when the clock shows `now`, `t` in UTC (no saturation: |t - now| < 2^63 ns) -/
+def Delay.until (now t : Int) : Delay := ⟨t, t - now, 0⟩
+/-- `delay.Until(t)` with `t` carrying a location `zone` seconds east of UTC (`time.Now()` in a non-UTC process, a
+    parsed `…+02:00`, `t.In(loc)`): the same instant, the same duration -/
+def Delay.untilIn (now t zone : Int) : Delay := ⟨t, t - now, zone⟩
 /-- unix second of the zero `time.Time` (0001-01-01T00:00:00Z) -/
 def zeroTimeSec : Int := -62135596800
 /-- the zero value `delay.Delay{}` -/
-def Delay.zero : Delay := ⟨zeroTimeSec * 1000000000, 0⟩
+def Delay.zero : Delay := ⟨zeroTimeSec * 1000000000, 0, 0⟩
 
 /-- RFC 3339 keeps whole seconds -/
 def secOf (t : Int) : Int := t / 1000000000
+
+/-- `t.Format(time.RFC3339)`: the instant, written in the location the value carries -/
+def renderTime (t zone : Int) : Val := if zone = 0 then .time (secOf t) else .timeIn (secOf t) zone
+
+/-- the instant a rendered time denotes (what a reader of the metadata gets from `time.Parse(time.RFC3339, …)`) -/
+def Val.instantSec : Val → Option Int
+  | .time s => some s
+  | .timeIn s _ => some s
+  | _ => none
+
+/-- seeded change round 4, C20/1: a layout whose `Z` is a literal prints the wall clock of the value's location and
+    labels it UTC -/
+def renderWallClockAsUTC (t zone : Int) : Val := .time (secOf (t + zone * 1000000000))
 
 structure Msg where
   id       : Nat
@@ -76,7 +94,7 @@ structure Msg where
 
 /-- `delay.Message(msg, delay)` -/
 def stamp (m : Msg) (d : Delay) : Msg :=
-  { m with md := mset (mset m.md untilKey (.time (secOf d.time))) forKey (.dur d.dur) }
+  { m with md := mset (mset m.md untilKey (renderTime d.time d.zone)) forKey (.dur d.dur) }
 
 inductive Err | noDelay | gen | inner | close | sub
   deriving DecidableEq, Repr, Inhabited
